@@ -54,6 +54,14 @@ def _field_path(p):
 
     def eq(x, y):
         return x.num == y.num
+    try:
+        return _field_axioms(p, FE, A, B, C, b, eq, wit)
+    except (ValueError, TypeError, ArithmeticError, AttributeError, IndexError) as ex:
+        check(False, f"a field operation on elements of the field raised {type(ex).__name__}", witness=wit)
+        return "raised"
+
+
+def _field_axioms(p, FE, A, B, C, b, eq, wit):
     check(eq((A + B) + C, A + (B + C)), "addition not associative", witness=wit)
     check(eq(A + B, B + A), "addition not commutative", witness=wit)
     check(eq((A * B) * C, A * (B * C)), "multiplication not associative", witness=wit)
@@ -88,15 +96,20 @@ def replay_field(w):
     p = w["p"]
     A, B, C = FE(w["a"], p), FE(w["b"], p), FE(w["c"], p)
     bad = []
-    if (A + B) + C != A + (B + C) or A + B != B + A or (A * B) * C != A * (B * C) or A * (B + C) != A * B + A * C or (A - B) + B != A:
-        bad.append("ring axiom")
-    if w["b"] and ((A / B) * B != A or B ** (p - 1) != FE(1, p)):
-        bad.append("inverse")
-    acc = FE(1, p)
-    for k in range(0, 7):
-        if A ** k != acc:
-            bad.append(f"pow {k}")
-        acc = acc * A
+    try:
+        if (A + B) + C != A + (B + C) or A + B != B + A or (A * B) * C != A * (B * C) or A * (B + C) != A * B + A * C or (A - B) + B != A:
+            bad.append("ring axiom")
+        if A + FE(0, p) != A or A * FE(1, p) != A or 3 * A != A + A + A:
+            bad.append("neutral element / integer multiple")
+        if w["b"] and ((A / B) * B != A or B ** (p - 1) != FE(1, p) or B ** -1 != FE(1, p) / B):
+            bad.append("inverse")
+        acc = FE(1, p)
+        for k in range(0, 7):
+            if A ** k != acc:
+                bad.append(f"pow {k}")
+            acc = acc * A
+    except (ValueError, TypeError, ArithmeticError, AttributeError, IndexError) as ex:
+        bad.append(f"raised {ex!r}")
     return {"violated": bool(bad), "observed": f"F_{p} a={w['a']} b={w['b']} c={w['c']}: {bad}"}
 
 
@@ -111,7 +124,12 @@ def _mkpoint(m, name, p, allow_inf):
     x = SI.var(name + ".x", 0, p - 1)
     y = SI.var(name + ".y", 0, p - 1)
     assume(((y * y - x * x * x - 7) % p) == 0)
-    return Point(FE(x, p), FE(y, p), a, b), x, y
+    try:
+        return Point(FE(x, p), FE(y, p), a, b), x, y
+    except (ValueError, TypeError, ArithmeticError) as ex:
+        check(False, f"constructing a point of the curve raised {type(ex).__name__}",
+              witness=lambda env: {"p": p, "A": [env[name + ".x"], env[name + ".y"]], "B": None})
+        raise core.PathAbort()
 
 
 def spec_add(p, P1, P2):
@@ -339,6 +357,34 @@ def _smul_path(p, q, lo, hi):
         t.close()
 
 
+def _plusint_path(p, q, lo, hi):
+    """the `point + int` shorthand (P + k means P + k*G) for k far outside [0, q): negative, beyond the field prime, beyond 2p"""
+    t = Toy(p, q)
+    try:
+        m = t.m
+        a = SI.var("a", 0, q)
+        b = SI.var("b", lo, hi)
+        wit = lambda env: {"p": p, "q": q, "a": env["a"], "b": env["b"]}  # noqa
+        aG = a * m.G
+        av = core.concretize(a)
+        try:
+            got = aG + b
+        except Exception as ex:
+            check(False, f"point + int raised {type(ex).__name__}", witness=wit)
+            return "raised"
+        bv = core.concretize(b)
+        check(_tup(got) == ref_mul(p, (av + bv) % q, t.g), "point + int shorthand differs from P + (k mod n)*G", witness=wit)
+        return "ok"
+    finally:
+        t.close()
+
+
+def ob_plusint(p, q, lo, hi):
+    r = sym_run(lambda: _plusint_path(p, q, lo, hi), timeout_ms=30000, max_paths=400000, max_violations=40)
+    r["sample"] = {"toy group": f"y^2=x^3+7 / F_{p}, order {q}", "a": f"symbolic in [0,{q}]", "k": f"symbolic in [{lo},{hi}]"}
+    return r
+
+
 def ob_smul(p, q, lo, hi):
     r = sym_run(lambda: _smul_path(p, q, lo, hi), timeout_ms=30000, max_paths=400000)
     r["sample"] = {"toy group": f"y^2=x^3+7 / F_{p}, order {q}", "a": f"symbolic in [{lo},{hi}]", "b": f"symbolic in [0,{q + 3}]"}
@@ -528,5 +574,9 @@ def obligations(tier):
         step = 30 if q else 50
         for a0 in (range(lo, hi, step) if (not q or p == 43) else ()):
             obs.append(Ob("O3-scalar-mult", ob_smul, {"p": p, "q": qq, "lo": a0, "hi": min(a0 + step - 1, hi)}, replay="smul", budget_s=2400))
+        if not q or p == 43:
+            span = (-2 * p - 3, 3 * p + 3) if q else (-4 * p - 3, 5 * p + 3)
+            for k0 in range(span[0], span[1] + 1, 45):
+                obs.append(Ob("O3-point-plus-int", ob_plusint, {"p": p, "q": qq, "lo": k0, "hi": min(k0 + 44, span[1])}, replay="smul", budget_s=2400))
         obs.append(Ob("O4-encodings", ob_encodings, {"p": p, "q": qq}, replay="enc", budget_s=2400))
     return obs
